@@ -124,7 +124,9 @@ def winsorize(run, F):
             centre = sym(mv[0] + '.0') if mv else sym('?')
             spread = Poly.atom(('fn', 'sqrt', (sym(mv[0] + '.1').freeze(),))) if mv else sym('?')
             want_g = {'VALID(%s.0)' % mv[0], 'VALID(%s.1)' % mv[0], '(prelude::EPS < %s.1)' % mv[0]} if mv else set()
-            gate_ok = bool(mv) and other == want_g and len(plain) == 1
+            # the unclipped rows are the alternatives of `not (mean valid && var valid && var > EPS)`
+            gate_ok = bool(mv) and other == want_g and len(plain) >= 1 and \
+                all(any(dtree._neg(c_) in cs_ for c_ in want_g) for cs_, l_, e_ in plain)
             run.ob('WIN.bounds', fn, 'sigma = sqrt(sample variance)', bool(mv), fn.loc(),
                    'mean / variance from %s' % [v[:60] for v in defs.values()])
         ok = (pa + pb) == Poly.const(2) * centre and (pb - pa) == Poly.const(2) * k_ * spread
@@ -214,7 +216,7 @@ def half_life(run, F):
         run.ob('HL.bracket', fn, 'below 0.5 lowers the upper end, above raises the lower end', okm,
                loc(W), 'assigned per region: %s (lo=%s hi=%s)' % (mv, lo, hi))
         # cap before the bisection
-        cap = '%s = %s.min((self.len() - 1))' % (hi, hi)
+        cap = '%s = min(%s)' % (hi, ', '.join(sorted(['(self.len() - 1)', hi])))
         loops_at = [i for i, e in enumerate(effs) if e.startswith('while (1 < (%s - %s))' % (hi, lo))]
         okcap = cap in effs and loops_at and effs.index(cap) < loops_at[0]
         run.ob('HL.bracket', fn, 'result capped at len - 1', bool(okcap), fn.loc(), 'cap before the bisection')
